@@ -22,6 +22,7 @@ from renormalizer.mps import MpDm
 
 import lib_c07c13 as L
 
+SEEN = {}
 TOLC = 2.0e4   # tolerance = TOLC * eps * nsite * scale  (~4e-12 * n * scale); calibrated, see report
 
 
@@ -129,9 +130,16 @@ class Case:
             else:
                 mp = MpDm.from_mps(a)
                 # make the ancilla non-trivial: multiply by a label-free random operator of bond 1-2
-                o = self._hand_mpo(cplx=bool(cplx and rng.random() < 0.7), maxbond=2)
-                mp = mp.apply(o) if rng.random() < 0.5 else o.apply(mp)
-                hist.append("from_mps;apply(op)")
+                if rng.random() < 0.5:
+                    # rho.O acts on the label-free ancilla leg: any operator keeps labels consistent
+                    o = self._hand_mpo(cplx=bool(cplx and rng.random() < 0.7), maxbond=2)
+                    mp = mp.apply(o)
+                    hist.append("from_mps;rho.apply(hand-op)")
+                else:
+                    # O.rho acts on the labelled physical leg: use a label-conserving symbolic operator
+                    o = Mpo(self.model, self.conserving_opsum(cplx))
+                    mp = o.apply(mp)
+                    hist.append("from_mps;O.apply(rho)")
                 if not np.any(L.dense_chain(L.arrays(mp))):
                     mp = MpDm.from_mps(a)
         if self.n >= 2 and self.kind != "zeroqn" and self.form == "mps":
@@ -168,6 +176,40 @@ class Case:
                     out.append((r"a^\dagger a", [x, y]))
             return out
         raise ValueError(d)
+
+    def conserving_opsum(self, cplx):
+        """sum of products of local operators that conserve the labels (plus the identity)"""
+        rng = self.rng
+        terms = [Op("I", self.desc[0][1] if self.desc[0][0] not in ("me", "mev") else self.desc[0][1][0]) * 1.0]
+        if self.desc[0][0] in ("me", "mev"):
+            terms = []
+        for _ in range(int(rng.integers(1, 4))):
+            k = int(rng.integers(1, min(self.n, 2) + 1))
+            sites = sorted(rng.choice(self.n, size=k, replace=False).tolist())
+            op = None
+            for s in sites:
+                d = self.desc[s]
+                if d[0] == "spin":
+                    o = Op(str(rng.choice(["X", "Z", "sigma_+"])), d[1])
+                elif d[0] == "spin2":
+                    o = Op("Z", d[1])
+                elif d[0] in ("sho", "sho2"):
+                    o = Op(str(rng.choice(["x", r"b^\dagger b", "b"])), d[1])
+                elif d[0] == "se":
+                    o = Op(r"a^\dagger a", d[1])
+                else:
+                    x, y = rng.choice(len(d[1]), size=2)
+                    o = Op(r"a^\dagger a", [d[1][int(x)], d[1][int(y)]])
+                op = o if op is None else op * o
+            fac = complex(float(rng.choice([1.0, -0.5, 2.0])), float(rng.choice([0.7, -1.3])) if cplx else 0.0)
+            terms.append(op * (fac if cplx else fac.real))
+        # hopping between two simple-electron sites conserves the total label
+        se = [d[1] for d in self.desc if d[0] == "se"]
+        if len(se) >= 2 and rng.random() < 0.6:
+            i, j = rng.choice(len(se), size=2, replace=False)
+            f = complex(0.8, 0.3) if cplx else 0.8
+            terms.append(Op(r"a^\dagger a", [se[int(i)], se[int(j)]]) * f)
+        return OpSum(terms)
 
     def sym_op(self, nfac=None):
         """random product Op over distinct sites with a (complex) factor"""
@@ -244,6 +286,10 @@ class Checker:
         c = self.c
         self.nfail += 1
         sig = f"{what}"
+        SEEN[sig] = SEEN.get(sig, 0) + 1
+        self.run.count("fail:" + sig)
+        if SEEN[sig] > 2:     # keep two replays per signature
+            return
         obj = dict(case=self.idx, kind=c.kind, form=c.form, complex=c.cplx, basis=c.desc, history=c.hist,
                    state=L.ser_mp(c.mp), detail=detail)
         if extra:
@@ -398,7 +444,7 @@ class Checker:
         slow = c.mp.expectations(ops, self_conj=X, opt=False)
         r = _cmp_vec(slow, want, tol)
         if r:
-            self.fail(f"expectations:{c.form}:slow-vs-dense:{r}", dict(got=L.ser_val(slow), want=L.ser_val(want)), extra)
+            self.fail(f"expectations:{c.form}:slow-vs-dense:{r}", dict(got=L.ser_val(slow), want=L.ser_val(want), tol=tol, nrm2=c.nrm2), extra)
         r = _cmp_vec(fast, want, tol)
         if r:
             self.fail(f"expectations:{c.form}:fast-vs-dense:{r}", dict(got=L.ser_val(fast), want=L.ser_val(want)), extra)
@@ -656,6 +702,7 @@ class Checker:
 
 # ------------------------------------------------------------------------------------ driver
 def search(run, rng, quick):
+    SEEN.clear()
     t0 = time.time()
     budget = 42.0 if quick else 480.0
     ncase = 0
